@@ -24,7 +24,16 @@ def _win_ramp(L):
     return 0.2 + np.arange(L, dtype=np.float64) / max(L, 1)
 
 
-WINDOWS = {"ones": _win_ones, "bartlett": _win_bartlett, "signed": _win_signed, "ramp": _win_ramp}
+def _win_gated(L):
+    """Hann-like taper with exact zeros at interior taps (a gated / blanked user window)."""
+    w = 0.1 + np.hanning(L + 2)[1:-1]
+    w[2::4] = 0.0
+    if L >= 6:
+        w[L // 2] = 0.0
+    return w
+
+
+WINDOWS = {"ones": _win_ones, "bartlett": _win_bartlett, "signed": _win_signed, "ramp": _win_ramp, "gated": _win_gated}
 
 
 class InjectedFault(RuntimeError):
@@ -181,7 +190,7 @@ SCHEDULERS = ["lpsd", "ltf", "vectorized_ltf", "new_ltf"]
 
 def gen_config(rw, N, *, backends=("numba",), allow_custom=True, allow_band=True, allow_force=True, min_Lmin=1):
     sched = rw.choice(SCHEDULERS + (["custom", "custom"] if allow_custom else []))
-    win = rw.choice(["kaiser", "kaiser", "hann", "ones", "bartlett", "signed", "ramp", "np_kaiser"])
+    win = rw.choice(["kaiser", "kaiser", "hann", "ones", "bartlett", "signed", "ramp", "np_kaiser", "gated"])
     cfg = {
         "fs": rw.choice([1.0, 2.0, 2.0, 10.0, 1000.0, 0.5]),
         "olap": rw.choice(["default", "default", 0.0, 0.3, 0.5, 0.75]),
